@@ -40,7 +40,7 @@ PATHS8 = [PATHS[i] for i in (1, 3, 4, 8, 9, 12, 13, 14)]
 CONDS = [L("ValueDataType", "equal_to", bool), L("ValueDataType", "equal_to", int), L("Value", "equal_to", 3),
          L("Value", "truthy")]
 CASTS = [(("str", "bool"),), (("str", "int"),)]
-LEAFS = ["true", "FALSE", "True", "3", "-3", " 3 ", "3.0", "abc", "", 3, True, None, [], {}]
+LEAFS = ["true", "FALSE", "True", "3", "-3", " 3 ", "3.0", "abc", "", 3, True, None, [], {}, "inf", "1e999", "1e3", "nan", "0x10", "1_0"]
 
 
 def documents():
